@@ -59,6 +59,13 @@ def gen(rng, tier):
         else:
             net = G.gen_net(rng, n_inputs=(1, 5), n_gates=(1, 9), types=G.swarm_types(rng), max_arity=4,
                             constants=0.3, name=f"c{i}", input_outputs=0.15)
+        if rng.random() < 0.15:
+            # escaped Verilog identifiers (bus bits, hierarchical names): legal node names that writers treat specially
+            plain = [n for n in net["nodes"] if "." not in n]
+            mp = {}
+            for j, n in enumerate(rng.sample(plain, min(len(plain), rng.randint(1, 3)))):
+                mp[n] = "\\" + rng.choice(("a", "bus", "y", "n1")) + rng.choice(("[0]", "[1]", "[3]", "/z", "#1")) + str(j)
+            net = G.rename(net, mp)
         nets.append(net)
     steps = []
     weights = [rng.uniform(0.3, 1.5) for _ in FUNCS]
